@@ -188,7 +188,7 @@ def mseMatch (a : AnnMap) (m : HttpMatch) : AnnMap := mseQueryPart (mseHeaderPar
 def mseHeaderControl (set : List HeaderKV) : String :=
   set.foldl (fun str header => str ++ (header.name ++ " " ++ header.value)) ""
 
-/-- lua_configuration/trafficrouting_ingress/mse.lua (as shipped) -/
+/-- lua_configuration/trafficrouting_ingress/mse.lua (with fixes/C14-7.patch: the script clears every key it may set) -/
 def mseLua (a : AnnMap) (s : LuaStep) : Option AnnMap :=
   -- `annotations = obj.annotations` without the `{}` default of the other scripts:
   -- with no annotations the first assignment indexes nil
@@ -198,9 +198,13 @@ def mseLua (a : AnnMap) (s : LuaStep) : Option AnnMap :=
   let a := adel "nginx.ingress.kubernetes.io/canary-by-header" a
   let a := adel "nginx.ingress.kubernetes.io/canary-by-header-pattern" a
   let a := adel "nginx.ingress.kubernetes.io/canary-by-header-value" a
+  let a := adel "nginx.ingress.kubernetes.io/canary-by-query" a
+  let a := adel "nginx.ingress.kubernetes.io/canary-by-query-pattern" a
+  let a := adel "nginx.ingress.kubernetes.io/canary-by-query-value" a
   let a := adel "mse.ingress.kubernetes.io/canary-by-query" a
   let a := adel "mse.ingress.kubernetes.io/canary-by-query-pattern" a
   let a := adel "mse.ingress.kubernetes.io/canary-by-query-value" a
+  let a := adel "mse.ingress.kubernetes.io/request-header-control-update" a
   let a := adel "nginx.ingress.kubernetes.io/canary-weight" a
   let a := if s.weight != "-1" then aset "nginx.ingress.kubernetes.io/canary-weight" s.weight a else a
   let a := if (lookup a "mse.ingress.kubernetes.io/service-subset").isSome
@@ -301,7 +305,7 @@ def pathLoop (cfg : Cfg) : List Path → Bool × List Path → Res (Bool × List
   | [], acc => .ok acc
   | p :: ps, (has, out) =>
     match p.backend.service with
-    | none => .panic                          -- `.Backend.Service.Name` on a nil `Service`
+    | none => pathLoop cfg ps (has, out)      -- `if …Backend.Service == nil { continue }`
     | some svc =>
       if svc.name == cfg.stableSvc then pathLoop cfg ps (true, out ++ [retarget cfg p svc])
       else pathLoop cfg ps (has, out)
@@ -312,7 +316,7 @@ def ruleLoop (cfg : Cfg) : List Rule → List Rule → Res (List Rule)
   | [], out => .ok out
   | r :: rs, out =>
     match r.http with
-    | none => .panic                          -- `len(stableRule.HTTP.Paths)` on a nil `HTTP`
+    | none => ruleLoop cfg rs out             -- `if stableRule.HTTP == nil { continue }`
     | some paths =>
       match pathLoop cfg paths (false, []) with
       | .panic => .panic
